@@ -10,10 +10,11 @@ Definition pcw (p : pc) : nat :=
   match p with
   | PIdle => 0 | PW0 _ _ => 7 | PW1 _ _ => 1 | PW2 _ _ => 6 | PW2wait _ _ => 5 | PW3 _ _ => 5
   | PW4 _ _ => 4 | PE0 _ _ => 3 | PC1 _ _ => 2 | PC2 _ _ => 1 | PC2wait _ _ => 0 | PO1 _ => 8
+  | PO0 => 9
   end.
 Definition callw (c : call) : nat :=
   match c with
-  | CWrite _ | CData _ => 8 | COpen => 9 | CClose => 3 | _ => 1
+  | CWrite _ | CData _ => 8 | COpen => 10 | CClose => 3 | _ => 1
   end.
 Fixpoint progw (p : list call) : nat := match p with [] => 0 | c :: r => callw c + progw r end.
 Definition mu (s : state) (t : tid) : nat := pcw (pcof s t) + progw (t_prog (tasks s t)).
@@ -92,6 +93,7 @@ Proof.
   - destruct (wr s); inversion H; subst; progtac Hw.
   - discriminate.
   - inversion H; subst; progtac Hw.
+  - inversion H; subst; progtac Hw.
 Qed.
 
 Lemma pcof_of_pcu s s' t p : pc_update s s' t p -> pcof s' t = p.
@@ -148,6 +150,7 @@ Proof.
     + rewrite (pcof_of_pcu _ _ _ _ (pcu_set_pc _ t _)), prog_set_pc. cbn. lia.
     + rewrite pcof_finish_close_same, prog_finish_close. cbn. lia.
   - discriminate.
+  - inversion H; subst; unfold mu. rewrite (pcof_of_pcu _ _ _ _ (pcu_set_task _ t _)). cbn. rewrite upd_same. cbn. lia.
   - inversion H; subst; unfold mu. rewrite (pcof_of_pcu _ _ _ _ (pcu_set_task s t _)). cbn. rewrite upd_same. cbn. lia.
 Qed.
 
